@@ -5,9 +5,10 @@
 //! snapshot the model set demands. Histories are executed step by step; the breadth-first
 //! pass merges states by content and additionally compares the routes with each other.
 
-use super::c01::POOL;
+use super::c01::{POOL, POOL_ROOTS};
 use crate::ctx::{guard, Ctx};
 use crate::drive;
+use crate::encode::{self, EncOpts};
 use crate::model::{Facts, Mode, RefOnt};
 use crate::space::all_dags;
 use hpo::annotations::AnnotationId;
@@ -1466,39 +1467,77 @@ fn check_pair(ont: &Ontology, r: &RefOnt, a: u32, b: u32, probes: &[u32], fp: &m
     }
 }
 
-fn rust_query(f: &Facts, query: &str) -> String {
+/// How the ontology of an ancestor case is constructed.
+#[derive(Clone, Copy, PartialEq, Eq, Debug)]
+enum Via {
+    /// Builder + build_minimal
+    Builder,
+    /// independent encoder (binary v3, carries obsolete flags / replacements) -> Ontology::from_bytes
+    Binary,
+}
+
+/// Construct the ontology; Ok((ontology, Rust source that yields `ont`)) or the violation to report.
+fn construct_ontology(f: &Facts, via: Via) -> Result<(Ontology, String), Viol> {
+    match via {
+        Via::Builder => match drive::build(f, Mode::Minimal) {
+            Ok(ont) => Ok((ont, f.to_rust(false))),
+            Err(e) => Err(("Builder".into(), "[builder] construction fails on valid facts".into(), json!({"case": f.to_json(), "observed": e}))),
+        },
+        Via::Binary => {
+            let bytes = encode::encode(f, &EncOpts::v(3));
+            let src = if bytes.len() <= 4096 {
+                let lit: Vec<String> = bytes.iter().map(|b| b.to_string()).collect();
+                format!("// binary v3 file holding the facts of this record (obsolete flags and replacements included)\nlet bytes: Vec<u8> = vec![{}];\nlet ont = hpo::Ontology::from_bytes(&bytes).unwrap();\n", lit.join(","))
+            } else {
+                format!("// ont = hpo::Ontology::from_bytes(<the {}-byte binary v3 file the harness encoder writes for the facts of this record>); re-run it with `hpo-verif C12 --replay <this file>`\n", bytes.len())
+            };
+            match drive::from_bytes(&bytes) {
+                Ok(Ok(ont)) => Ok((ont, src)),
+                Ok(Err(e)) => Err(("Ontology::from_bytes".into(), "[binary v3] rejects a file laid out as documented".into(), json!({"case": f.to_json(), "observed": e, "bytes_len": bytes.len()}))),
+                Err(p) => Err(("Ontology::from_bytes".into(), "[binary v3] panics on a file laid out as documented".into(), json!({"case": f.to_json(), "observed": p, "bytes_len": bytes.len()}))),
+            }
+        }
+    }
+}
+
+fn rust_query(prelude: &str, query: &str) -> String {
     // query looks like "HpoTerm::xyz(a, b)"
     let (name, args) = query.trim_start_matches("HpoTerm::").split_once('(').unwrap_or((query, "0, 0)"));
     let args = args.trim_end_matches(')');
     let (a, b) = args.split_once(", ").unwrap_or(("0", "0"));
     let show = if name.ends_with("_ids") { "r.iter().map(|i| i.as_u32()).collect::<Vec<_>>()" } else { "r.iter().map(|t| t.id().as_u32()).collect::<Vec<_>>()" };
-    format!("use hpo::annotations::AnnotationId;\n{}let a = ont.hpo({a}u32).unwrap();\nlet b = ont.hpo({b}u32).unwrap();\nlet r = a.{name}(&b);\nprintln!(\"{{:?}}\", {show});\n", f.to_rust(false))
+    format!("use hpo::annotations::AnnotationId;\n{prelude}let a = ont.hpo({a}u32).unwrap();\nlet b = ont.hpo({b}u32).unwrap();\nlet r = a.{name}(&b);\nprintln!(\"{{:?}}\", {show});\n")
 }
 
-/// Run all ordered pairs (a in `firsts`, b in all terms) on the ontology built from `f`.
-fn ancestor_case(ctx: &mut Ctx, seen: &mut BTreeSet<String>, f: &Facts, firsts: &[u32], shape: &str) {
-    let r = RefOnt::derive(f);
+/// Run the ordered pairs (a in `firsts`, b in `seconds` or, if None, in all terms) on the ontology
+/// constructed from `f` by `via`; `r` is the reference closure of `f`.
+#[allow(clippy::too_many_arguments)]
+fn ancestor_case(ctx: &mut Ctx, seen: &mut BTreeSet<String>, f: &Facts, r: &RefOnt, via: Via, firsts: &[u32], seconds: Option<&[u32]>, shape: &str) {
     let ids: Vec<u32> = r.terms.keys().copied().collect();
-    let npairs = (firsts.len() * ids.len()) as u64;
+    let seconds: &[u32] = seconds.unwrap_or(&ids);
+    let npairs = (firsts.len() * seconds.len()) as u64;
     ctx.transitions(f.n_steps() + npairs * 8);
     ctx.execs(npairs * 8);
     ctx.validateds(npairs * 8);
-    let Ok(ont) = drive::build(f, Mode::Minimal) else {
-        ctx.violation("Builder", "[builder] construction fails on valid facts", json!({"case": f.to_json()}));
-        return;
+    let (ont, prelude) = match construct_ontology(f, via) {
+        Ok(x) => x,
+        Err((site, sig, detail)) => {
+            ctx.violation(&site, &sig, detail);
+            return;
+        }
     };
     let mut found: Vec<AFind> = vec![];
     let mut fp = Fp::new();
     let res = guard(|| {
         for &a in firsts {
-            for &b in &ids {
-                check_pair(&ont, &r, a, b, &ids, &mut fp, &mut found);
+            for &b in seconds {
+                check_pair(&ont, r, a, b, &ids, &mut fp, &mut found);
             }
         }
     });
     ctx.outcome(fp.0);
     if let Err(msg) = res {
-        ctx.violation(at_get(), SIG_PANIC, json!({"facts": f.to_json(), "shape": shape, "panic": msg, "rust": f.to_rust(false)}));
+        ctx.violation(at_get(), SIG_PANIC, json!({"facts": facts_json(f), "shape": shape, "constructed_via": format!("{via:?}"), "panic": msg, "rust": prelude}));
     }
     for (site, sig, query, what) in found {
         // full detail only for the first report of a kind in this process; later ones are only counted
@@ -1506,9 +1545,18 @@ fn ancestor_case(ctx: &mut Ctx, seen: &mut BTreeSet<String>, f: &Facts, firsts: 
         if seen.contains(&key) {
             ctx.violation(&site, &sig, Value::Null);
         } else {
-            ctx.violation(&site, &sig, json!({"facts": f.to_json(), "shape": shape, "query": query, "difference": what, "rust": rust_query(f, &query)}));
+            ctx.violation(&site, &sig, json!({"facts": facts_json(f), "shape": shape, "constructed_via": format!("{via:?}"), "query": query, "difference": what, "rust": rust_query(&prelude, &query)}));
             seen.insert(key);
         }
+    }
+}
+
+/// Facts as JSON; very large fact sets (the chain of 300) are abbreviated, their shape text describes them.
+fn facts_json(f: &Facts) -> Value {
+    if f.terms.len() <= 70 {
+        f.to_json()
+    } else {
+        json!({"n_terms": f.terms.len(), "n_links": f.edges.len(), "first_terms": f.terms.iter().take(8).map(|t| t.id).collect::<Vec<_>>(), "first_links (child,parent)": f.edges.iter().take(8).collect::<Vec<_>>(), "last_links (child,parent)": f.edges.iter().rev().take(4).collect::<Vec<_>>()})
     }
 }
 
@@ -1530,7 +1578,7 @@ fn ancestors_dags(ctx: &mut Ctx, seen: &mut BTreeSet<String>) {
             }
             let f = Facts::from_dag(d, &POOL);
             let firsts: Vec<u32> = POOL[..n].to_vec();
-            ancestor_case(ctx, seen, &f, &firsts, &d.describe());
+            ancestor_case(ctx, seen, &f, &RefOnt::derive(&f), Via::Builder, &firsts, None, &d.describe());
             ctx.sample(|| json!({"dag": d.describe(), "ids": &POOL[..n], "ordered_pairs": n * n}));
         }
     }
@@ -1570,15 +1618,19 @@ fn ancestors_deep(ctx: &mut Ctx, seen: &mut BTreeSet<String>) {
     for (name, n, edges) in &shapes {
         for idkind in 0..2 {
             let id = |i: usize| -> u32 { if idkind == 0 { 10 + 3 * i as u32 } else { 5000 - 7 * i as u32 } };
-            let mut f: Option<Facts> = None;
+            let mut f: Option<(Facts, RefOnt)> = None;
             for first in 0..*n {
                 if !ctx.take() {
                     continue;
                 }
-                let f = f.get_or_insert_with(|| Facts { terms: (0..*n).map(|i| Facts::term(id(i), &format!("T{}", id(i)))).collect(), edges: edges.iter().map(|(c, p)| (id(*c), id(*p))).collect(), anns: vec![], version: (0, 0, 0) });
+                let (f, r) = f.get_or_insert_with(|| {
+                    let f = Facts { terms: (0..*n).map(|i| Facts::term(id(i), &format!("T{}", id(i)))).collect(), edges: edges.iter().map(|(c, p)| (id(*c), id(*p))).collect(), anns: vec![], version: (0, 0, 0) };
+                    let r = RefOnt::derive(&f);
+                    (f, r)
+                });
                 ctx.state();
                 ctx.nontrivial();
-                ancestor_case(ctx, seen, f, &[id(first)], name);
+                ancestor_case(ctx, seen, f, r, Via::Builder, &[id(first)], None, name);
                 if first == n - 1 {
                     ctx.sample(|| json!({"shape": name, "ids": if idkind == 0 { "10+3i" } else { "5000-7i" }, "first_term": id(first), "second_terms": n}));
                 }
@@ -1587,15 +1639,97 @@ fn ancestors_deep(ctx: &mut Ctx, seen: &mut BTreeSet<String>) {
     }
 }
 
+/// D(2..) through the decoder with obsolete flags / replacements, which only a decoded ontology can carry.
+fn ancestors_flagged(ctx: &mut Ctx, seen: &mut BTreeSet<String>) {
+    let max_n = if ctx.tier.thorough() { 5 } else { 4 };
+    for n in 2..=max_n {
+        let dags = all_dags(n);
+        ctx.space(
+            &format!("ancestors/binary-flags/D{n}/all-ordered-pairs"),
+            &format!("{} labelled DAGs on {n} terms (ids {:?}) encoded as binary v3 and decoded by Ontology::from_bytes x {} flag variants (no flags; each single term obsolete + replaced by the next term; all terms obsolete + replaced by the next) x {} ordered pairs x 8 queries; flags must not influence the set algebra; one case = one DAG", dags.len(), &POOL_ROOTS[..n], n + 2, n * n),
+        );
+        for d in &dags {
+            if !ctx.take() {
+                continue;
+            }
+            if d.n_edges() > 0 {
+                ctx.nontrivial();
+            }
+            let mut base = Facts::from_dag(d, &POOL_ROOTS);
+            base.version = (2024, 2, 29);
+            let r = RefOnt::derive(&base);
+            let firsts: Vec<u32> = POOL_ROOTS[..n].to_vec();
+            // variant 0: no flags; 1..=n: term v-1 flagged; n+1: all flagged
+            for v in 0..n + 2 {
+                let mut f = base.clone();
+                let mut flagged = vec![];
+                for k in 0..n {
+                    if v == k + 1 || v == n + 1 {
+                        f.terms[k].obsolete = true;
+                        f.terms[k].replacement = Some(f.terms[(k + 1) % n].id);
+                        flagged.push(f.terms[k].id);
+                    }
+                }
+                // the reference closure does not look at flags
+                debug_assert!(RefOnt::derive(&f).terms.iter().all(|(id, t)| t.ancestors == r.terms[id].ancestors));
+                ctx.state();
+                ancestor_case(ctx, seen, &f, &r, Via::Binary, &firsts, None, &format!("{}; obsolete+replaced: {:?}", d.describe(), flagged));
+            }
+            ctx.sample(|| json!({"dag": d.describe(), "ids": &POOL_ROOTS[..n], "flag_variants": n + 2, "ordered_pairs": n * n, "constructed_via": "encode v3 -> Ontology::from_bytes"}));
+        }
+    }
+}
+
+/// Chain of 300 terms (node i is_a node i-1, node 0 the root) = up to 299 ancestors, beyond every
+/// 8-bit depth / size counter, with side term X below node 290 and node 5 and side term Y below node 5.
+fn ancestors_chain300(ctx: &mut Ctx, seen: &mut BTreeSet<String>) {
+    const N: usize = 300;
+    let (x, y) = (N, N + 1);
+    let mut sel: Vec<usize> = vec![0, 1, 4, 5, 6, 253, 254, 255, 256, 257, 258, 259, 260, 289, 290, 291, 298, 299, x, y];
+    sel.sort_unstable();
+    let idmaps = ["node i -> HP:(i+1): ids ascend with depth, root = HP:1", "node i -> HP:(302-i): ids descend with depth, root = HP:302"];
+    ctx.space(
+        "ancestors/chain300",
+        &format!("chain of {N} terms (255 / 256 / 257 ancestors lie inside it) + side term X (node {x}) below nodes 290 and 5 + side term Y (node {y}) below node 5, ids 1..=302 (HP:1 and HP:118 present) in 2 assignments {idmaps:?} x constructed via Builder + build_minimal and via binary v3 -> Ontology::from_bytes x all ordered pairs of the {} selected nodes {sel:?} (both ends, 253..=260, the branch points and their neighbours, both side terms) x 8 queries; one case = (ids, construction, first term)", sel.len()),
+    );
+    for idkind in 0..2 {
+        let id = |i: usize| -> u32 { if idkind == 0 { i as u32 + 1 } else { 302 - i as u32 } };
+        let mut cache: Option<(Facts, RefOnt)> = None;
+        for via in [Via::Builder, Via::Binary] {
+            for &first in &sel {
+                if !ctx.take() {
+                    continue;
+                }
+                let (f, r) = cache.get_or_insert_with(|| {
+                    let mut edges: Vec<(u32, u32)> = (1..N).map(|i| (id(i), id(i - 1))).collect();
+                    edges.extend([(id(x), id(290)), (id(x), id(5)), (id(y), id(5))]);
+                    let f = Facts { terms: (0..N + 2).map(|i| Facts::term(id(i), &format!("T{}", id(i)))).collect(), edges, anns: vec![], version: (2024, 2, 29) };
+                    let r = RefOnt::derive(&f);
+                    assert_eq!(r.terms[&id(N - 1)].ancestors.len(), N - 1, "harness: chain closure");
+                    assert_eq!(r.terms[&id(x)].ancestors.len(), 291, "harness: side term closure");
+                    (f, r)
+                });
+                ctx.state();
+                ctx.nontrivial();
+                let seconds: Vec<u32> = sel.iter().map(|i| id(*i)).collect();
+                ancestor_case(ctx, seen, f, r, via, &[id(first)], Some(&seconds), &format!("chain of {N} + side terms; {}", idmaps[idkind]));
+                if first == N - 1 {
+                    ctx.sample(|| json!({"shape": "chain of 300 + 2 side terms", "ids": idmaps[idkind], "constructed_via": format!("{via:?}"), "first_term": id(first), "ancestors_of_first_term": r.terms[&id(first)].ancestors.len(), "second_terms": seconds}));
+                }
+            }
+        }
+    }
+}
+
 pub fn run(ctx: &mut Ctx) {
-    ctx.rule = "histories: every insertion sequence over a 5-id alphabet up to the length bound, shortest first, executed step by step next to a BTreeSet (non-trivial = contains a repeated id and an id smaller than an earlier one); BFS: one case per distinct content, all insertion routes into it compared with each other and the model (non-trivial = at least two routes); inline-limit / constructors / algebra: one case per (order, ids, start) resp. input sequence resp. operand pair (asymmetric spaces: one case per smallest id of the small group / extra ids, non-trivial = the small group shares an id with the large one and brings a new one), distinct by construction (non-trivial: constructor input is not already strictly ascending, i.e. needs sorting or de-duplication; operands neither empty nor nested); ancestors: one case per labelled DAG (all ordered pairs) or per (deep shape, first term) (non-trivial = has a link); outcomes are fingerprints of the observed contents / results".into();
+    ctx.rule = "histories: every insertion sequence over a 5-id alphabet up to the length bound, shortest first, executed step by step next to a BTreeSet (non-trivial = contains a repeated id and an id smaller than an earlier one); BFS: one case per distinct content, all insertion routes into it compared with each other and the model (non-trivial = at least two routes); inline-limit / constructors / algebra: one case per (order, ids, start) resp. input sequence resp. operand pair (asymmetric spaces: one case per smallest id of the small group / extra ids, non-trivial = the small group shares an id with the large one and brings a new one), distinct by construction (non-trivial: constructor input is not already strictly ascending, i.e. needs sorting or de-duplication; operands neither empty nor nested); ancestors: one case per labelled DAG (all ordered pairs; binary-flags: all flag variants of it) or per (deep shape / chain of 300, ids, construction, first term) (non-trivial = has a link); outcomes are fingerprints of the observed contents / results".into();
     ctx.assumptions = vec![
         "any u32 is a legal id for HpoGroup (0 and u32::MAX included); the documentation states no restriction".into(),
         "HpoGroup::with_capacity: capacity is not observable; only the behaviour of the resulting empty group is checked".into(),
         "From<HashSet<HpoTermId>>: the iteration order of the std HashSet (RandomState) is not controlled; the result must not depend on it".into(),
         "operands of the operators are groups built through the public API (insert / From / FromIterator), never hand-crafted unsorted storage".into(),
         "HpoTerm::all_union_ancestor_ids / all_union_ancestors: the documentation contradicts itself (prose: self and other included; doc-test: not included); exactly these two readings are accepted, the exclusive one is reported as the known finding".into(),
-        "ancestor queries: acyclic ontologies built with Builder + build_minimal (C01 establishes that the other construction paths yield the same links); both terms belong to the same ontology".into(),
+        "ancestor queries: acyclic ontologies; built with Builder + build_minimal, and (binary-flags, chain300) also decoded from a binary v3 file written by the independent encoder, where terms may be flagged obsolete / replaced - the property quantifies over all terms of all ontologies and its set algebra does not mention flags, so flagged terms count like any other; both terms belong to the same ontology".into(),
         "Combined (iterator twins): the order of iteration is not part of the property; the multiset of yielded ids is compared (so a repeated id is still caught)".into(),
     ];
     histories(ctx);
@@ -1609,4 +1743,6 @@ pub fn run(ctx: &mut Ctx) {
     let mut seen: BTreeSet<String> = BTreeSet::new();
     ancestors_dags(ctx, &mut seen);
     ancestors_deep(ctx, &mut seen);
+    ancestors_flagged(ctx, &mut seen);
+    ancestors_chain300(ctx, &mut seen);
 }
